@@ -170,7 +170,7 @@ Section Inv.
       /\ onto_ancestors prims m order = Ok anc
       /\ stack_serializations prims m anc order = (smap, false)
       /\ props_violation prims m anc (stack_properties prims m anc order) = false
-      /\ fst (stack_methods prims m anc order) = mmap
+      /\ stack_methods prims m anc order = (mmap, false)
       /\ stack_constructors prims m anc = Ok (kmap, false)
       /\ resolve_interfaces prims m anc order = Ok ifm
       /\ verify_initialized prims m anc (stack_properties prims m anc order) kmap = Ok false
@@ -194,7 +194,7 @@ Section Inv.
       Hme : stack_methods _ _ _ _ = (?mm0, false),
       Hk : stack_constructors _ _ _ = Ok (?km, false),
       Hi : resolve_interfaces _ _ _ _ = Ok ?im |- _ =>
-        exists o, an, sm, mm0, km, im; rewrite Hme
+        exists o, an, sm, mm0, km, im
     end.
     repeat split; try assumption; try reflexivity.
   Qed.
@@ -536,6 +536,181 @@ Section SerFold.
       + left. destruct (c_wmt c) as [w|]; [|destruct Hv]. destruct Hv as [<-|[]]. reflexivity.
   Qed.
 End SerFold.
+
+(** * Methods *)
+Section Methods.
+  Variable prims : list name.
+  Variable m : mm.
+  Variable anc : amap.
+
+  (** [seen] holds exactly the names of the methods inherited so far, which are distinct *)
+  Definition minv (seen : list name) (inh : list (ident name)) : Prop :=
+    NoDup (map id_val inh) /\ forall q, In q seen <-> In q (map id_val inh).
+
+  Lemma inherit_methods_spec : forall ms seen inh err inh' seen',
+    inherit_methods ms seen inh err = (inh', seen', false) -> minv seen inh ->
+    err = false /\ inh' = inh ++ ms /\ minv seen' inh'.
+  Proof.
+    induction ms as [|x ms IH]; intros seen inh err inh' seen' H Hinv; cbn [inherit_methods] in H.
+    - injection H as <- <- <-. rewrite app_nil_r. auto.
+    - destruct (mem_text (id_val x) seen) eqn:E.
+      + apply IH in H; [|exact Hinv]. destruct H as [H _]. discriminate.
+      + apply mem_text_false in E. destruct Hinv as [Hnd Hs].
+        apply IH in H.
+        * destruct H as [He [Hi Hm]]. split; [exact He|]. split; [|exact Hm].
+          rewrite Hi, <- app_assoc. reflexivity.
+        * split.
+          -- rewrite map_app. cbn [map]. apply NoDup_snoc; [exact Hnd|].
+             intro Hx. apply E. apply Hs. exact Hx.
+          -- intro q. rewrite map_app. cbn [map In]. rewrite in_app_iff, Hs. cbn [In]. tauto.
+  Qed.
+
+  Lemma inherit_fold_spec : forall (mmap : list (name * list (ident name))) bs inh seen err inh' seen',
+    fold_left (fun acc b =>
+                 let '(inh, seen, e) := acc in
+                 inherit_methods (match lookup b mmap with Some l => l | None => [] end) seen inh e)
+              bs (inh, seen, err) = (inh', seen', false) ->
+    minv seen inh ->
+    err = false /\ inh' = inh ++ flat_map (fun b => lk b mmap) bs /\ minv seen' inh'.
+  Proof.
+    intros mmap. induction bs as [|b bs IH]; intros inh seen err inh' seen' H Hinv; cbn [fold_left] in H.
+    - injection H as <- <- <-. cbn [flat_map]. rewrite app_nil_r. auto.
+    - destruct (inherit_methods (match lookup b mmap with Some l => l | None => [] end) seen inh err)
+        as [[inh1 seen1] e1] eqn:E.
+      destruct (IH _ _ _ _ _ H) as [He1 [Hi Hm]].
+      + destruct e1.
+        * (* the error flag never goes back to false *)
+          exfalso. clear - H IH.
+          assert (Hmono : forall bs inh seen inh' seen',
+                     fold_left (fun acc b =>
+                        let '(inh, seen, e) := acc in
+                        inherit_methods (match lookup b mmap with Some l => l | None => [] end) seen inh e)
+                       bs (inh, seen, true) <> (inh', seen', false)).
+          { clear. induction bs as [|b bs IHb]; intros inh seen inh' seen'; cbn [fold_left]; [congruence|].
+            destruct (inherit_methods _ seen inh true) as [[i s] e] eqn:E.
+            assert (e = true).
+            { clear - E. revert seen inh i s e E.
+              induction (match lookup b mmap with Some l => l | None => [] end) as [|x ms IHm];
+                intros seen inh i s e E; cbn [inherit_methods] in E.
+              - injection E as _ _ <-. reflexivity.
+              - destruct (mem_text (id_val x) seen); eapply IHm; exact E. }
+            subst e. apply IHb. }
+          eapply Hmono. exact H.
+        * destruct (inherit_methods_spec _ _ _ _ _ _ E Hinv) as [_ [_ Hm1]]. exact Hm1.
+      + subst e1. destruct (inherit_methods_spec _ _ _ _ _ _ E Hinv) as [He [Hi1 _]].
+        split; [exact He|]. split; [|exact Hm]. rewrite Hi, Hi1, <- app_assoc. reflexivity.
+  Qed.
+
+  Lemma methods_step_err_mono : forall st n, snd (methods_step prims m anc st n) = false -> snd st = false.
+  Proof.
+    intros [mmap err] n H. unfold methods_step in H.
+    destruct (is_cp prims m anc n); [exact H|].
+    destruct (find_class m n) as [c|]; [|exact H].
+    destruct (fold_left _ (c_bases c) ([], [], err)) as [[inh seen] err1] eqn:E.
+    destruct (existsb _ _); cbn [snd] in H; [discriminate|]. subst err1.
+    apply inherit_fold_spec in E; [destruct E as [E _]; exact E|].
+    split; [constructor | intro q; tauto].
+  Qed.
+
+  Lemma methods_step_other : forall st n k, k <> n ->
+    lookup k (fst (methods_step prims m anc st n)) = lookup k (fst st).
+  Proof.
+    intros [mmap err] n k Hk. unfold methods_step.
+    destruct (is_cp prims m anc n); [reflexivity|].
+    destruct (find_class m n) as [c|]; [|reflexivity].
+    destruct (fold_left _ (c_bases c) ([], [], err)) as [[inh seen] err1].
+    destruct (existsb _ _); cbn [fst]; [reflexivity|]. apply lookup_update_other. congruence.
+  Qed.
+
+  Lemma methods_fold : forall l st,
+    snd (fold_left (methods_step prims m anc) l st) = false ->
+    snd st = false /\ forall k, ~ In k l ->
+      lookup k (fst (fold_left (methods_step prims m anc) l st)) = lookup k (fst st).
+  Proof.
+    induction l as [|n l IH]; intros st H; cbn [fold_left] in *.
+    - split; [exact H | intros; reflexivity].
+    - apply IH in H. destruct H as [H1 H2]. split.
+      + eapply methods_step_err_mono. exact H1.
+      + intros k Hk. rewrite H2; [|intro Hx; apply Hk; right; exact Hx].
+        apply methods_step_other. intro Hx. apply Hk. left. symmetry. exact Hx.
+  Qed.
+
+  Lemma methods_step_eq : forall mmap n c,
+    is_cp prims m anc n = false -> find_class m n = Some c ->
+    snd (methods_step prims m anc (mmap, false) n) = false ->
+    let inh := flat_map (fun b => lk b mmap) (c_bases c) in
+    lookup n (fst (methods_step prims m anc (mmap, false) n)) = Some (inh ++ lk n mmap)
+    /\ NoDup (map id_val inh)
+    /\ forall x, In x (lk n mmap) -> ~ In (id_val x) (map id_val inh).
+  Proof.
+    intros mmap n c Hcp Hc H inh0. unfold methods_step in *. rewrite Hcp, Hc in *.
+    destruct (fold_left _ (c_bases c) ([], [], false)) as [[inh seen] err1] eqn:E.
+    fold (lk n mmap) in *.
+    destruct (existsb (fun x => mem_text (id_val x) seen) (lk n mmap)) eqn:Ex; cbn [fst snd] in *;
+      [discriminate|].
+    subst err1. apply inherit_fold_spec in E; [|split; [constructor | intro q; tauto]].
+    destruct E as [_ [Hi [Hnd Hs]]]. cbn [app] in Hi. subst inh. fold inh0 in Hnd, Hs |- *.
+    split; [apply lookup_update_same|]. split; [exact Hnd|].
+    intros x Hx Hin. apply Hs in Hin.
+    assert (existsb (fun x0 => mem_text (id_val x0) seen) (lk n mmap) = true).
+    { apply existsb_exists. exists x. split; [exact Hx | apply mem_text_In; exact Hin]. }
+    congruence.
+  Qed.
+
+  (** After the methods pass without a reported error: the methods of a class are those of
+      its bases (final lists, in the declared order of the bases; their names are pairwise
+      distinct, so nothing had to be de-duplicated) followed by its own, whose names differ
+      from the inherited ones. *)
+  Theorem methods_fold_thm : wf prims m -> forall order mmap,
+    topo_sort prims m = Ok order ->
+    stack_methods prims m anc order = (mmap, false) ->
+    forall c, In c m -> is_cp prims m anc (c_name c) = false ->
+      let inh := flat_map (fun b => lk b mmap) (c_bases c) in
+      lk (c_name c) mmap = inh ++ own_ids (c_name c) (c_methods c)
+      /\ NoDup (map id_val inh)
+      /\ forall x, In x (own_ids (c_name c) (c_methods c)) -> ~ In (id_val x) (map id_val inh).
+  Proof.
+    intros Hwf order mmap Et Hs c Hc Hcp.
+    destruct (topo_sort_ok prims m Hwf) as [o [Et' [Htopo Hperm]]].
+    rewrite Et in Et'. injection Et' as <-.
+    pose proof Hwf as [Hnd [Hbases _]].
+    assert (Hndo : NoDup order).
+    { eapply Permutation_NoDup; [apply Permutation_sym; exact Hperm | exact Hnd]. }
+    set (n := c_name c) in *.
+    assert (Hno : In n order).
+    { eapply Permutation_in; [apply Permutation_sym; exact Hperm|]. unfold names. apply in_map. exact Hc. }
+    destruct (order_split order n Hno Hndo) as [l1 [l2 [Eo [Hn1 Hn2]]]].
+    pose proof (find_class_unique m c Hnd Hc) as Hfc. fold n in Hfc.
+    unfold stack_methods in Hs. rewrite Eo, fold_left_app in Hs. cbn [fold_left] in Hs.
+    set (init := (map (fun c0 => (c_name c0, own_ids (c_name c0) (c_methods c0))) m, false)) in Hs.
+    set (st1 := fold_left (methods_step prims m anc) l1 init) in Hs.
+    set (st2 := methods_step prims m anc st1 n) in Hs.
+    assert (Hfin : snd (fold_left (methods_step prims m anc) l2 st2) = false) by (rewrite Hs; reflexivity).
+    destruct (methods_fold l2 st2 Hfin) as [He2 Hl2]. rewrite Hs in Hl2. cbn [fst] in Hl2.
+    assert (He1 : snd st1 = false) by (eapply methods_step_err_mono; exact He2).
+    destruct (methods_fold l1 init He1) as [_ Hl1]. fold st1 in Hl1.
+    destruct st1 as [s1 e1] eqn:Est1. cbn [snd fst] in *. subst e1.
+    assert (Hown : lk n s1 = own_ids n (c_methods c)).
+    { unfold lk. rewrite (Hl1 n Hn1). unfold init. cbn [fst].
+      pose proof (lookup_init _ (fun x => own_ids (c_name x) (c_methods x)) m c Hnd Hc) as Hi0.
+      fold n in Hi0. cbv beta in Hi0. rewrite Hi0. reflexivity. }
+    assert (Hbase : forall b, In b (c_bases c) -> lk b mmap = lk b s1).
+    { intros b Hb. unfold lk.
+      assert (Hb1 : In b l1).
+      { eapply (topo_split prims m order Htopo l1 n l2 Eo). exists c. split; [exact Hfc|].
+        rewrite (not_cp_no_prim prims m anc c Hc Hnd Hcp). exact Hb. }
+      assert (Hbn : b <> n). { intro E. subst b. contradiction. }
+      assert (Hb2 : ~ In b l2).
+      { rewrite Eo in Hndo. intro H.
+        apply (NoDup_app_l_not_r _ l1 (n :: l2) b Hndo Hb1). right. exact H. }
+      rewrite (Hl2 b Hb2). unfold st2. rewrite methods_step_other; [reflexivity | exact Hbn]. }
+    pose proof (methods_step_eq s1 n c Hcp Hfc He2) as Heq. cbv zeta in Heq. fold st2 in Heq.
+    rewrite Hown in Heq.
+    rewrite (flat_map_ext_In _ _ _ (fun b => lk b s1) (c_bases c) Hbase).
+    destruct Heq as [H1 [H2 H3]]. split; [|split; assumption].
+    unfold lk at 1. rewrite (Hl2 n Hn2), H1. reflexivity.
+  Qed.
+End Methods.
 
 (** * End to end: what [translate] guarantees for an accepted, well-formed hierarchy *)
 Definition class_ir (r : ir) (n : name) : option cls_ir :=
